@@ -166,6 +166,7 @@ def _relpath(program: Program, m) -> str:
 # ----------------------------------------------------------------------------- _next_mark against its summary
 class MarkIter(AbsVal):
     """Abstract mark iterator: some newline marks, then a non-newline mark or exhaustion."""
+    lazy = True
 
     def __init__(self, owner):
         self.owner = owner
@@ -197,8 +198,9 @@ class MarkIter(AbsVal):
 
 def check_next_mark(program: Program):
     """Returns (issues, scenarios) for Splitter._next_mark."""
+    sm.configure(program)
     cls = program.cls("splitter", "Splitter")
-    fi = program.func("splitter", "Splitter._next_mark")
+    fi = program.func("splitter", f"Splitter.{sm.M_NEXT_MARK}")
     issues = []
     scenarios = []
 
@@ -289,8 +291,9 @@ def check_next_mark(program: Program):
 
 # ----------------------------------------------------------------------------- _end_implicit_comment over class strings
 def check_end_implicit_comment(program: Program, max_len: int = 5):
+    sm.configure(program)
     cls = program.cls("splitter", "Splitter")
-    fi = program.func("splitter", "Splitter._end_implicit_comment")
+    fi = program.func("splitter", f"Splitter.{sm.M_END_IMPLICIT}")
     icls = program.cls("model", "ImplicitComment")
     issues = []
     n = 0
@@ -307,7 +310,7 @@ def check_end_implicit_comment(program: Program, max_len: int = 5):
                 it = new_interp(program, ctx, {}, None)
                 it.frames.append(Frame(fi.module, None, {}, None, "<driver>"))
                 sp = AObj(cls)
-                sp.attrs.update({"_implicit_comment_start": 2, "_implicit_comment_start_line": LineV("B", 0), sm.ATTR_TEXT: text})
+                sp.attrs.update({sm.ATTR_IMPL_START: 2, sm.ATTR_IMPL_LINE: LineV("B", 0), sm.ATTR_TEXT: text})
                 try:
                     return ("return", it.call_function(AFunc(fi, fi.node, fi.module, self_val=sp, cls=cls), [2 + len(t)], {}), it)
                 except Raised as r:
@@ -339,7 +342,7 @@ def check_end_implicit_comment(program: Program, max_len: int = 5):
         it = new_interp(program, ctx, {}, None)
         it.frames.append(Frame(fi.module, None, {}, None, "<driver>"))
         sp = AObj(cls)
-        sp.attrs.update({"_implicit_comment_start": None, "_implicit_comment_start_line": LineV("B", 0), sm.ATTR_TEXT: "ABxCD"})
+        sp.attrs.update({sm.ATTR_IMPL_START: None, sm.ATTR_IMPL_LINE: LineV("B", 0), sm.ATTR_TEXT: "ABxCD"})
         try:
             return it.call_function(AFunc(fi, fi.node, fi.module, self_val=sp, cls=cls), [3], {})
         except (Raised, Unsupported, LoopBound) as e:
